@@ -109,7 +109,6 @@ var c18Names = []string{"default", "a", "b", "c", "d"}
 type c18gen struct {
 	t       *rapid.T
 	named   bool
-	unique  bool // label values unique per server (not used by C18, kept for symmetry with C19)
 	labels  map[int]map[string]string
 	drawn   map[int]bool
 	servers []int
@@ -119,7 +118,7 @@ type c18gen struct {
 func (g *c18gen) addServer(i int) {
 	if !g.drawn[i] {
 		g.drawn[i] = true
-		g.labels[i] = drawLabels(g.t, g.unique, i)
+		g.labels[i] = drawLabels(g.t)
 	}
 	g.servers = append(g.servers, i)
 }
@@ -346,7 +345,7 @@ func TestC18_ConfigHistory(t *testing.T) {
 
 		everSeen := map[int64]string{} // shard id -> "namespace@step" of its creation
 		sawRemoval, removalThenAddition, nonPow2, sawRefusal, sawReaddWhileDeleting, partialDelete := false, false, false, false, false, false
-		serversChanged := false
+		serversChanged, strictApplied := false, false
 
 		for step := 0; step < steps; step++ {
 			edits := []string{}
@@ -417,6 +416,9 @@ func TestC18_ConfigHistory(t *testing.T) {
 				_, existedBefore := status.Namespaces[nc.Name]
 				if _, isNew := newStatus.Namespaces[nc.Name]; isNew && !existedBefore {
 					removalThenAddition = removalThenAddition || sawRemoval
+					if hasStrictRule(nc.Policies) && len(rs) > 0 {
+						strictApplied = true
+					}
 					if nc.InitialShardCount&(nc.InitialShardCount-1) != 0 {
 						nonPow2 = true
 					}
@@ -475,6 +477,9 @@ func TestC18_ConfigHistory(t *testing.T) {
 		if partialDelete {
 			labels = append(labels, "deletion_pending_across_change")
 		}
+		if strictApplied {
+			labels = append(labels, "namespace_created_under_strict_rule")
+		}
 		if sawRefusal || sawReaddWhileDeleting {
 			labels = append(labels, "unreachable") // those cases fail above
 		}
@@ -509,7 +514,7 @@ func TestKF_C18(t *testing.T) {
 		withNs.Namespaces = []model.NamespaceConfig{{Name: "default", InitialShardCount: 1, ReplicationFactor: 1}}
 		sel := ensemble.NewSelector()
 		st, _, _ := utils.ApplyClusterChanges(&withNs, model.NewClusterStatus(), realSupplier(&withNs, sel, nil))
-		st, _, _ = utils.ApplyClusterChanges(cfg, st, realSupplier(cfg, sel, nil))        // namespace removed, shard 0 Deleting
+		st, _, _ = utils.ApplyClusterChanges(cfg, st, realSupplier(cfg, sel, nil))         // namespace removed, shard 0 Deleting
 		st, _, _ = utils.ApplyClusterChanges(&withNs, st, realSupplier(&withNs, sel, nil)) // put back before the deletion finished
 		if p := partitionProblem(activeRanges(st.Namespaces["default"])); p != "" {
 			evid.KnownFinding("C18", kfReaddWhileDeleting+": namespace removed and put back before its shard was deleted: "+p)
